@@ -3,7 +3,7 @@ import random
 
 COSTS = [(1, 1, 2, 2), (1, 3, 2, 2), (3, 1, 2, 2), (1, 1, .5, 3), (1, 1, 3, .5),
          (2, 1, 5, 0), (1, 2, 0, 0), (1, 1, 0, 0), (1, 1, 0, 1), (1, 1, .1, .1),
-         (5, 1, 1, 1), (1, 1, 100, 100)]
+         (5, 1, 1, 1), (1, 1, 100, 100), (1, 1, 10, 1), (2, 5, 7, 3), (4, 1, 8, 8), (1, 1, 1, 10)]
 TRAJ = ("maximum", "revolve")
 
 
@@ -11,12 +11,17 @@ def tier_params(tier):
     if tier == "thorough":
         return dict(nmax=40, nmax_h=24, smax=5, dmax=4, pmax=9, bmax=4, ncost=len(COSTS),
                     passes=3, nmax_ms=40)
-    return dict(nmax=14, nmax_h=12, smax=4, dmax=3, pmax=6, bmax=3, ncost=len(COSTS),
+    return dict(nmax=14, nmax_h=16, smax=4, dmax=3, pmax=6, bmax=3, ncost=len(COSTS),
                 passes=3, nmax_ms=14)
 
 
 def basic_specs(tier):
+    import sys
     p = tier_params(tier)
+    # finalisation later than the first Forward of the sys.maxsize-stepping schedules
+    for k in (1, 2):
+        yield ("SingleMemory", (), (), k * sys.maxsize + 7)
+        yield ("NoneSchedule", (), (), k * sys.maxsize + 7)
     for N in range(1, p["nmax"] + 1):
         yield ("SingleMemory", (), (), N)
         yield ("SingleDisk", (), (("move_data", False),), N)
